@@ -54,7 +54,7 @@ func (ig *ingest) moreGates(e *Effect) {
 	case e.Config == "vc-proof-and-block" && e.Kind == "call" && e.Name == "interfaces.StoreViewChange" && len(e.Args) == 2 && isNetMsg(e.Args[1]):
 		ev := a.NewEval(e, ig.r)
 		H := hdr(ev.Arg(1))
-		ev.Require("VC9", props("C08", "C04", "C11"), "a vote's non-empty prepared proof belongs to the vote's own instance", "net", Eq(inst(Call("protocol.PreprepareBlockRef", proofOf(H))), inst(H)))
+		ev.Require("VC9", props("C08", "C04", "C11", "C01", "C07", "C09"), "a vote's non-empty prepared proof belongs to the vote's own instance", "net", Eq(inst(Call("protocol.PreprepareBlockRef", proofOf(H))), inst(H)))
 	}
 	// L7.NV: NEW_VIEW acceptance does not depend on the node's own prepared state
 	if e.Config == "" && e.Kind == "store" && e.Name == "termincommittee.TermInCommittee.latestViewThatProcessedVCMOrNVM" {
@@ -82,7 +82,7 @@ func (ig *ingest) proofInstanceInNV(ev *Eval, votes *Term) {
 	proof := Call("protocol.PreparedProof", vh)
 	goal := Eq(inst(Call("protocol.PreprepareBlockRef", proof)), inst(vh))
 	if ev.Has(ForAll(votes, goal)) != nil {
-		ev.Verdict("NV9.inst", props("C07", "C04", "C08", "C11"), "every embedded vote that carries a non-empty prepared proof has that proof bound to the vote's own instance", "net", true, "")
+		ev.Verdict("NV9.inst", props("C07", "C04", "C08", "C11", "C01", "C09"), "every embedded vote that carries a non-empty prepared proof has that proof bound to the vote's own instance", "net", true, "")
 		return
 	}
 	facts := Facts{}
@@ -120,7 +120,7 @@ func (ig *ingest) proofInstanceInNV(ev *Eval, votes *Term) {
 			}
 		}
 	}
-	ev.Verdict("NV9.inst", props("C07", "C04", "C08", "C11"), "every embedded vote that carries a non-empty prepared proof has that proof bound to the vote's own instance", "net", facts.Has(goal) != nil,
+	ev.Verdict("NV9.inst", props("C07", "C04", "C08", "C11", "C01", "C09"), "every embedded vote that carries a non-empty prepared proof has that proof bound to the vote's own instance", "net", facts.Has(goal) != nil,
 		"no per-vote fact yields PreprepareBlockRef.InstanceId == vote.InstanceId for a non-empty proof")
 }
 
@@ -245,7 +245,7 @@ func runMore(a *Analyzer, r *Results) {
 						g := ci.Common().StaticCallee()
 						return g != nil && funcID(g) == idE2
 					})
-					r.Check("H7.drain", props("C17"), "once a round has installed its term, every path goes on to drain the future cache into it (messages cached for this height are delivered when the node starts it)", shortName(f), a.P.InstrPos(in), ok2,
+					r.Check("H7.drain", props("C17", "C08", "C10", "C07"), "once a round has installed its term, every path goes on to drain the future cache into it (messages cached for this height are delivered when the node starts it)", shortName(f), a.P.InstrPos(in), ok2,
 						"a path after the new term is installed returns without draining the future cache", "P")
 				}
 			}
@@ -387,7 +387,7 @@ func runMore(a *Analyzer, r *Results) {
 	}
 
 	// ---- NV13 / LK6: selection of the highest-proof vote (follower) and of the block to re-propose (leader)
-	checkSelection(a, r, "(*services/termincommittee.TermInCommittee).latestViewChangeVote", "NV13", props("C07", "C09", "C01", "C05"), false)
+	checkSelection(a, r, idVoteSel, "NV13", props("C07", "C09", "C01", "C05"), false)
 	checkSelection(a, r, "services/blockextractor.GetLatestBlockFromViewChangeMessages", "LK6", props("C09", "C11", "C07", "C05", "C01"), true)
 
 	// ---- LK4: ExtractPreparedMessages
